@@ -61,10 +61,11 @@ class AbsItem:
 
 class AbsVar:
     """Any SECS variable object as a container sees it: the abstract codec contract of C01.  Ghost fields: g_enc (the bytes
-    its encode() returns), g_from / g_to (where its last decode() started and ended)."""
+    its encode() returns), g_from / g_to (where its last decode() started and ended).  encode() has a NATIVE reading for
+    replays (it returns the ghost bytes); the engine never reads the body (the call is replaced by ChildEncodeAbs)."""
 
     def encode(self):
-        raise NotImplementedError("external")
+        return bytes(self.g_enc)
 
     def decode(self, data, start=0):
         raise NotImplementedError("external")
